@@ -49,6 +49,8 @@ CALLS = {
     ("special", "xlogy"): ("xlogy", 2),
     ("np", "greater_equal"): ("ge_ind", 2),
     ("np", "less_equal"): ("le_ind", 2),
+    ("np", "less"): ("lt_ind", 2),
+    ("np", "greater"): ("gt_ind", 2),
 }
 # primitives with a side condition: name -> ok predicate
 PARTIAL = {"np_log": "np_log_ok", "xlogy": "xlogy_ok", "np_power": "np_power_ok", "np_div": "np_div_ok"}
